@@ -178,8 +178,11 @@ def r3(ctx):
     okk = same_key and bool(flag_edges) and bool(pend_none)
     if okk:
         # on the flag-true edge after a successful insertion the slot is cleared on every path
+        # (edges that contradict a discriminant known to be constant there are infeasible: `if let Inserted = insert_result` after the
+        # match that only ever yields Inserted)
+        infeasible = constant_discriminant_edges(b, g)
         for sb, tgt in flag_edges:
-            rr = b.reachable(tgt, removed_blocks=pend_none)
+            rr = reachable_flags(b, p, tgt, removed_blocks=pend_none, removed_edges=infeasible)
             if any(x in rr for x in b.return_blocks()):
                 okk = False
     if okk:
